@@ -205,6 +205,9 @@ pub fn generate(prop: &str, rng: &mut Rng, thorough: bool) -> Case {
         // locomotive models never pass any): a share of the C09 runs and a smaller share of C01 / C08
         "C09" => Some(if rng.chance(0.15) { "cmp" } else { "pt" }),
         "C01" | "C08" => Some(if rng.chance(0.06) { "cmp" } else { "pt" }),
+        // the speed profile of a train simulation's own path (train parameters derived from the car list by
+        // TrainConfig, path extended while the train moves): a small share, these runs cost 1000 x a trk case
+        "C13" | "C02" => Some(if rng.chance(0.0004) { "trn" } else { "trk" }),
         _ => info(prop).map(|i| i.world),
     };
     match world {
